@@ -11,7 +11,8 @@ pub struct LostCalleeSavedRegisterCheck;
 impl LintPass for LostCalleeSavedRegisterCheck {
     fn run(cfg: &Cfg, errors: &mut DiagnosticManager) {
         for node in cfg {
-            let callee = Register::saved_set();
+            // (the return address is saved and restored like a saved register)
+            let callee = Register::saved_set() | Register::X1;
 
             // If: within a function, node stores to a saved register,
             // and the value going in was the original value
